@@ -73,23 +73,34 @@ inductive OutcomeC (α : Type) where
   | panic (s : Site)
 deriving Repr, DecidableEq
 
+/-- `Codec.decodeFrame` from the allocation of the frame buffer on -/
+def decodeFrameBody (i : Info) (data : List Byte) : OutcomeC (Array Byte) × List Nat :=
+  match parseHeader data with
+  | none => (.err, [i.frameSize])
+  | some (n, offs) =>
+    if n ≠ i.numberOfSegments then (.err, [i.frameSize])
+    else
+      match decodeSegmentsChk i data n offs n 0 (Array.replicate i.frameSize 0) with
+      | .error .oob => (.panic .store, [i.frameSize])
+      | .error (.err _) => (.err, [i.frameSize])
+      | .ok buf => (.ok buf, [i.frameSize])
+
 /-- `Codec.decodeFrame`: (outcome, allocation sizes).  The frame buffer is allocated from the
-    FrameInfo BEFORE the stream header is looked at — this is the order in rle.go. -/
+    FrameInfo before the stream header is looked at, but (since commit 9650374) after the plane
+    count implied by the FrameInfo has been checked to be 1..15. -/
 def decodeFrameC (i : Info) (data : List Byte) : OutcomeC (Array Byte) × List Nat :=
   if data.length = 0 then (.err, [])
+  else if i.bitsAllocated = 0 ∨ i.numberOfSegments < 1 ∨ i.numberOfSegments > 15 then (.err, [])
   else if i.frameSize > maxAlloc then (.panic .makeslice, [])
-  else
-    match parseHeader data with
-    | none => (.err, [i.frameSize])
-    | some (n, offs) =>
-      if n ≠ i.numberOfSegments then (.err, [i.frameSize])
-      else
-        match decodeSegmentsChk i data n offs n 0 (Array.replicate i.frameSize 0) with
-        | .error .oob => (.panic .store, [i.frameSize])
-        | .error (.err _) => (.err, [i.frameSize])
-        | .ok buf => (.ok buf, [i.frameSize])
+  else decodeFrameBody i data
 
 /-- declared samples of a frame description -/
 def Info.samples (i : Info) : Nat := i.width * i.height * i.spp
+
+/-- the FrameInfo fields are `uint16` in Go -/
+def Info.U16 (i : Info) : Prop :=
+  i.width < 65536 ∧ i.height < 65536 ∧ i.bitsAllocated < 65536 ∧ i.spp < 65536 ∧ i.planar < 65536
+
+instance (i : Info) : Decidable i.U16 := by unfold Info.U16; infer_instance
 
 end Rle
